@@ -1,9 +1,9 @@
 (* C19 -- tessellation lattices match the Voronoi diagram of the given centres.  Statements only (after the Qhull oracle and the
    three-decimal rounding: a region is the list of its rounded corners).
-   PARTIAL: interning of vertices and edges is proved; "one cell per kept region with the region's corners as cycle" and "all cells in
-   one rotational sense" are evaluated by harness/props/c19.py against scipy's diagram. *)
-From Coq Require Import Reals ZArith QArith List Bool.
-From Forsys Require Import Model.Num Model.Geometry Model.Tessellation Proofs.TessProofs Proofs.GeometryProofs Proofs.OrientationProofs.
+   PARTIAL: interning of vertices and edges, the rotational sense of the stored cycles and which regions survive the distance cut-off are
+   proved; "one cell per kept region with the region's corners as cycle" is evaluated by harness/props/c19.py against scipy's diagram. *)
+From Coq Require Import Reals ZArith QArith List Bool Permutation.
+From Forsys Require Import Model.Num Model.Geometry Model.Tessellation Proofs.TessProofs Proofs.GeometryProofs Proofs.OrientationProofs Model.PyList Model.RegionFilter Proofs.RegionFilterProofs.
 Import ListNotations.
 Open Scope Z_scope.
 
@@ -47,6 +47,29 @@ Example C19_two_squares :
   (length (tv st), length (te st), lattice_cells st) = (6%nat, 7%nat, [(1, [1; 2; 3; 4]); (2, [2; 5; 6; 3])]).
 Proof. vm_compute. reflexivity. Qed.
 
+(* ---- which regions survive the distance cut-off (tessellation.remove_infinite_regions, Model/RegionFilter.v) *)
+(* the list.remove calls amount to a filter ... *)
+Theorem C19_cut_off_is_a_filter : forall verts max2 regions, NoDup regions ->
+  remove_infinite_regions verts max2 regions = filter (fun c => negb (deletable verts max2 c)) regions.
+Proof. exact remove_infinite_regions_is_filter. Qed.
+(* ... the regions that become cells are the bounded, non-empty ones all of whose corners are pairwise within the cut-off ... *)
+Theorem C19_cells_are_the_regions_below_the_cut_off : forall verts max2 regions c, NoDup regions ->
+  (In c (cell_regions verts max2 regions) <->
+   In c regions /\ c <> [] /\ ~ In (-1) c /\ forall i j, In i c -> In j c -> (qsqdist (verts i) (verts j) <= max2)%Q).
+Proof. exact cell_regions_spec. Qed.
+(* ... and the verdict on a region does not depend on the order in which Qhull lists its corners, nor on which one comes last *)
+Theorem C19_cut_off_independent_of_corner_order : forall verts max2 c c', Permutation c c' -> region_wide verts max2 c = region_wide verts max2 c'.
+Proof. exact region_wide_permutation. Qed.
+Theorem C19_larger_cut_off_drops_no_more : forall verts (m m' : Q) c, (m <= m')%Q -> region_wide verts m' c = true -> region_wide verts m c = true.
+Proof. exact region_wide_monotone. Qed.
+
+(* a 3-4-5 triangle whose hypotenuse is listed last: dropped at cut-off 4.5, kept at 5, whatever the order of the corners *)
+Example C19_cut_off_example :
+  let verts := assoc_def (0, 0)%Q [(0%Z, (0, 0)%Q); (1%Z, (3, 0)%Q); (2%Z, (3, 4)%Q)] in
+  cell_regions verts (81 # 4) [[0; 1; 2]; [0; 1; -1]; []]%Z = [] /\ cell_regions verts 25 [[0; 1; 2]; [0; 1; -1]; []]%Z = [[0; 1; 2]]%Z /\
+  region_wide verts (81 # 4) [2; 0; 1]%Z = true.
+Proof. vm_compute. repeat split; reflexivity. Qed.
+
 Print Assumptions C19_vertex_interning.
 Print Assumptions C19_same_point_same_id.
 Print Assumptions C19_shared_ridge_shared_edge.
@@ -55,3 +78,7 @@ Print Assumptions C19_lattice_cells_keys.
 Print Assumptions C19_area_of_doubled_list.
 Print Assumptions C19_stored_cycles_share_one_sense.
 Print Assumptions C19_region_vertex_list_is_doubled.
+Print Assumptions C19_cut_off_is_a_filter.
+Print Assumptions C19_cells_are_the_regions_below_the_cut_off.
+Print Assumptions C19_cut_off_independent_of_corner_order.
+Print Assumptions C19_larger_cut_off_drops_no_more.
